@@ -262,6 +262,61 @@ def loader_part(ctx, scratch):
                           {"signature": "modname-correspondence", "file": name + ".py"}, broken="correspondence moduleName ↔ os.path.splitext")
 
 
+def loader_sequences(ctx, scratch, count):
+    """several loads in one session, from several directories, without any clean-up in between (as a user's script
+    does): every path must yield the function defined in THAT file.  Each identifier is imported at most once per
+    sequence (Python's own module cache, which would legitimately return the first module of a name, stays out of it),
+    but the same file name may exist in several directories."""
+    import pysensors.utils as U
+    rng = ctx.rng
+    serial = [0]
+    for idx in range(count):
+        ndirs = rng.randint(2, 3)
+        dirs = []
+        for d in range(ndirs):
+            dp = os.path.join(scratch, f"seq{idx}_{d}")
+            os.makedirs(dp, exist_ok=True)
+            dirs.append(dp)
+        names = []
+        while len(names) < rng.randint(3, 6):
+            serial[0] += 1
+            nm = f"{gen_identifier(rng)}_{serial[0]}"
+            if not _shadows(nm):
+                names.append(nm)
+        # every name exists in every directory, with a different constant
+        const = {}
+        for d, dp in enumerate(dirs):
+            for k, nm in enumerate(names):
+                const[(d, nm)] = 1000 * (d + 1) + k
+                with open(os.path.join(dp, nm + ".py"), "w") as fh:
+                    fh.write(f"def {nm}(x, y, **kw):\n    return {const[(d, nm)]}\n")
+        plan = [(rng.randrange(ndirs), nm) for nm in names]
+        ctx.evaluations += 1
+        ctx.count("loader_sequence")
+        bad = None
+        try:
+            for step, (d, nm) in enumerate(plan):
+                try:
+                    fn = U.load_functional_constraints(os.path.join(dirs[d], nm + ".py"))
+                    got = fn(0, 0)
+                except Exception as e:
+                    got = f"{type(e).__name__}: {e}"
+                if got != const[(d, nm)]:
+                    bad = (step, d, nm, got)
+                    break
+        finally:
+            for nm in names:
+                sys.modules.pop(nm, None)
+            sys.path[:] = [q for q in sys.path if not q.startswith(scratch)]
+        if bad:
+            step, d, nm, got = bad
+            ctx.violation("concrete", f"load #{step} asked for directory {d}'s '{nm}.py' (returns {const[(d, nm)]}) and got a function returning {got!r}; "
+                                      f"loads so far: {[(dd, n) for dd, n in plan[:step + 1]]}",
+                          {"signature": "loader-wrong-file", "plan": plan, "index": idx})
+        elif len({d for d, _ in plan}) > 1:
+            ctx.nontriv(("loader_sequence", tuple(d for d, _ in plan)))
+
+
 def run(ctx: C.Ctx):
     scratch = tempfile.mkdtemp(prefix="psverif_c13_")
     try:
@@ -270,6 +325,7 @@ def run(ctx: C.Ctx):
         coords_part(ctx, ctx.scale(120, 2000))
         user_defined_part(ctx, ctx.scale(60, 600), scratch)
         loader_part(ctx, scratch)
+        loader_sequences(ctx, scratch, ctx.scale(40, 400))
     finally:
         shutil.rmtree(scratch, ignore_errors=True)
 
@@ -295,3 +351,6 @@ def replay(ctx: C.Ctx, payload):
                 ctx.violation("concrete", f"'{d['file']}' not loaded", {"signature": "loader-module-name", "file": d["file"]})
         finally:
             shutil.rmtree(scratch, ignore_errors=True)
+    else:
+        print("# this case derives from (seed, index): re-running the whole check with VERIF_SEED =", payload.get("seed"))
+        run(ctx)
